@@ -50,6 +50,21 @@ def shim_programs():
     # read from a file stream whose file does not exist (end of file at once): 255
     out.append(('shim:fileeof', head + [A.imm('LDAC', 256), A.ref('LDBM', 'sp'), A.imm('STAI', 2), A.imm('LDAC', 2), A.opr('SVC'), A.ref('LDAM', 'sp'), A.imm('LDAI', 1),
                                         A.ref('LDBM', 'sp'), A.imm('STAI', 2), A.imm('LDAC', 0), A.opr('SVC')]))
+    # full-word observations: the exit value is a whole register, so a difference that an 8-bit status or ordinary output would
+    # hide (a carry into a high bit, a sign) is visible to the specification's verdict on each simulator
+    exita = [A.ref('LDBM', 'sp'), A.imm('STAI', 2), A.imm('LDAC', 0), A.opr('SVC')]
+    out.append(('word:ldapback', head + [A.lab('here'), A.imm('LDAC', 0), A.ref('LDAP', 'here')] + exita))
+    out.append(('word:ldapback2', head + [A.lab('here')] + [A.imm('LDAC', 0)] * 300 + [A.ref('LDAP', 'here')] + exita))
+    out.append(('word:ldapfwd', head + [A.ref('LDAP', 'there')] + exita + [A.lab('there'), A.imm('LDAC', 0)]))
+    out.append(('word:ldapself', head + [A.lab('self'), A.ref('LDAP', 'self')] + exita))
+    out.append(('word:ldacneg', head + [A.imm('LDAC', -2)] + exita))
+    out.append(('word:ldacmin', head + [A.imm('LDAC', -2 ** 31 + 1)] + exita))
+    out.append(('word:addwrap', head + [A.imm('LDAC', 2 ** 31 - 1), A.imm('LDBC', 1), A.opr('ADD')] + exita))
+    out.append(('word:subneg', head + [A.imm('LDAC', 0), A.imm('LDBC', 1), A.opr('SUB')] + exita))
+    out.append(('word:subwrap', head + [A.imm('LDAC', -2 ** 31 + 1), A.imm('LDBC', 5), A.opr('SUB')] + exita))
+    out.append(('word:ldbcneg', head + [A.imm('LDBC', -77), A.imm('LDAC', 0), A.opr('ADD')] + exita))
+    out.append(('word:ldaineg', [A.ref('BR', 'go'), A.lab('sp'), A.data(150000), A.lab('w'), A.data(-123456789), A.lab('go'), A.imm('LDAC', 6), A.imm('LDAI', -4)] + exita))
+    out.append(('word:brnneg', head + [A.imm('LDAC', -2 ** 31 + 1), A.ref('BRN', 't'), A.imm('LDAC', 5), A.lab('t')] + exita))
     return [(i, p, asmlib.src_of(p)) for i, p in out]
 
 
